@@ -646,7 +646,9 @@ static int h_getc (void *d) {
 }
 
 static unsigned h_c2m_modnum;
-/* opts: string of letters  E (preprocess only) S (asm output) y (syntax only) p (pedantic) */
+/* opts: string of letters  E (preprocess only) S (asm output) y (syntax only) p (pedantic) x (errors expected)
+   I<n>: n include directories, the first n-1 do not exist, the last one is <dir of file>/incdir
+   D<n>: n additional -D macros (C17_M0 … ) */
 static void h_step_c2m (const char *file, const char *opts) {
   struct c2mir_options o;
   struct h_getc_data g;
@@ -674,6 +676,37 @@ static void h_step_c2m (const char *file, const char *opts) {
   o.include_dirs_num = slash != NULL ? 1 : 0;
   o.macro_commands = mc;
   o.macro_commands_num = 2;
+  {
+    const char *ip = strchr (opts, 'I'), *dp = strchr (opts, 'D');
+    static char h_dirs[512][48], h_last[4096], h_mn[512][24];
+    static const char *h_dirp[512];
+    static struct c2mir_macro_command h_mc[514];
+    size_t ni = ip != NULL ? strtoul (ip + 1, NULL, 10) : 0, nd = dp != NULL ? strtoul (dp + 1, NULL, 10) : 0;
+    if (ni > 512) ni = 512;
+    if (nd > 512) nd = 512;
+    if (ni > 0) {
+      for (size_t i = 0; i + 1 < ni; i++) {
+        snprintf (h_dirs[i], sizeof (h_dirs[i]), "/nonexistent/c17/d%zu", i);
+        h_dirp[i] = h_dirs[i];
+      }
+      snprintf (h_last, sizeof (h_last), "%s/incdir", slash != NULL ? dir : ".");
+      h_dirp[ni - 1] = h_last;
+      o.include_dirs = h_dirp;
+      o.include_dirs_num = ni;
+    }
+    if (nd > 0) {
+      h_mc[0] = mc[0];
+      h_mc[1] = mc[1];
+      for (size_t i = 0; i < nd; i++) {
+        snprintf (h_mn[i], sizeof (h_mn[i]), "C17_M%zu", i);
+        h_mc[2 + i].def_p = 1;
+        h_mc[2 + i].name = h_mn[i];
+        h_mc[2 + i].def = "1";
+      }
+      o.macro_commands = h_mc;
+      o.macro_commands_num = 2 + nd;
+    }
+  }
   if (strchr (opts, 'p')) o.pedantic_p = 1;
   if (strchr (opts, 'y')) o.syntax_only_p = 1;
   if (strchr (opts, 'E')) {
